@@ -392,6 +392,124 @@ GATE_FALLBACK_CONT = ("((negb (negb (g_n_reservations_put g =? 0))) && ((if (neg
                       "(if ((((g_n_reservations_put g + g_n_items g) + g_n_ready_items g) <? (g_cap g)) && ((g_acc g) || ((g_n_ready_items g) =? (0)))) then true else false))))")
 
 
+# ---------------------------------------------------------------- fleet departure, statistics arithmetic
+class NTr(Tr):
+    """expressions over named scalars: `names` maps (normalised) Python source text to a Gallina variable"""
+
+    def __init__(self, names):
+        super().__init__()
+        self.names = {ast.unparse(ast.parse(k, mode="eval").body): v for k, v in names.items()}
+
+    def z(self, n):
+        src = ast.unparse(n)
+        if src in self.names:
+            return self.names[src]
+        return super().z(n)
+
+
+def fleet_capacity_trigger(tree):
+    """FleetStore._do_put: the test of the `if ... == self.capacity:` whose body triggers activate_fleet"""
+    fn = find(tree, "FleetStore", "_do_put")
+    hits = [n for n in ast.walk(fn) if isinstance(n, ast.If) and "capacity" in ast.unparse(n.test)
+            and "activate_fleet" in ast.unparse(n) and "append" not in "".join(ast.unparse(x) for x in n.body)]
+    if len(hits) != 1:
+        raise Unsupported("%d candidate capacity-trigger tests in FleetStore._do_put" % len(hits))
+    return Tr().b(hits[0].test)
+
+
+def fleet_activation_guard(tree):
+    """FleetStore.fleet_activation_process: the test of the `if` under which a batch is sent off"""
+    fn = find(tree, "FleetStore", "fleet_activation_process")
+    hits = [n for n in ast.walk(fn) if isinstance(n, ast.If) and "move_to_ready_items" in ast.unparse(n)]
+    if not hits:
+        raise Unsupported("no departure branch")
+    outer = min(hits, key=lambda n: (n.lineno, n.col_offset))
+    return Tr().b(outer.test)
+
+
+def fleet_transit_legs(tree):
+    """FleetStore.move_to_ready_items: how many `yield self.env.timeout(self.transit_delay)` precede the unloading loop"""
+    fn = find(tree, "FleetStore", "move_to_ready_items")
+    loops = [n for n in ast.walk(fn) if isinstance(n, ast.For)]
+    if len(loops) != 1:
+        raise Unsupported("expected one unloading loop")
+    legs = 0
+    for n in ast.walk(fn):
+        if isinstance(n, ast.Yield) and n.value is not None and n.lineno < loops[0].lineno:
+            if ast.unparse(n.value) != "self.env.timeout(self.transit_delay)":
+                raise Unsupported("a wait that is not a transit leg: " + ast.unparse(n.value))
+            legs += 1
+    later = [n for n in ast.walk(fn) if isinstance(n, ast.Yield) and n.lineno >= loops[0].lineno]
+    if later:
+        raise Unsupported("a wait inside or after the unloading loop")
+    return "(%d)" % legs
+
+
+def assigned_value(fn, target_src):
+    """the right-hand side of the single plain or augmented assignment to <target_src> in fn, together with the
+    local definitions (name = expr) that textually precede it"""
+    hits, locals_ = [], []
+    for n in ast.walk(fn):
+        if isinstance(n, ast.Assign) and len(n.targets) == 1:
+            if ast.unparse(n.targets[0]) == target_src:
+                hits.append(n)
+            elif isinstance(n.targets[0], ast.Name):
+                locals_.append(n)
+        if isinstance(n, ast.AugAssign) and ast.unparse(n.target) == target_src:
+            if not isinstance(n.op, ast.Add):
+                raise Unsupported("augmented assignment that is not +=")
+            hits.append(n)
+    if len(hits) != 1:
+        raise Unsupported("%d assignments to %s" % (len(hits), target_src))
+    return hits[0].value, [l for l in locals_ if l.lineno < hits[0].lineno]
+
+
+def scalar_expr(fn, target_src, names):
+    value, locs = assigned_value(fn, target_src)
+    tr = NTr(names)
+    for l in sorted(locs, key=lambda n: n.lineno):
+        try:
+            tr.names[l.targets[0].id] = tr.z(l.value)
+        except Unsupported:
+            pass
+    return tr.z(value)
+
+
+def node_elapsed(tree):
+    fn = find(tree, "Node", "update_state")
+    return scalar_expr(fn, "elapsed", {"current_time": "now_", "self.stats['last_state_change_time']": "last"})
+
+
+def node_state_charge(tree):
+    """Node.update_state: total[state] = total.get(state, 0.0) + elapsed  -> old + (now - last)"""
+    fn = find(tree, "Node", "update_state")
+    return scalar_expr(fn, "self.stats['total_time_spent_in_states'][self.state]",
+                       {"current_time": "now_", "self.stats['last_state_change_time']": "last",
+                        "self.stats['total_time_spent_in_states'].get(self.state, 0.0)": "old"})
+
+
+def sink_cycle(tree):
+    fn = find(tree, "Sink", "behaviour")
+    return scalar_expr(fn, "self.stats['total_cycle_time']",
+                       {"self.env.now": "now_", "self.item_in_process.timestamp_creation": "created"})
+
+
+LEVEL_NAMES = {"self.env.now": "now_", "self._last_level_change_time": "lastt", "self._last_num_items": "lastn"}
+frag("FleetStore_capacity_trigger", "base/fleet_store.py", fleet_capacity_trigger, "(n_items l + n_ready_items l =? capacity l)")
+frag("FleetStore_activation_guard", "base/fleet_store.py", fleet_activation_guard, "(negb (n_items l =? 0))")
+frag("FleetStore_transit_legs", "base/fleet_store.py", fleet_transit_legs, "2", kind="constZ")
+frag("Node_elapsed", "nodes/node.py", node_elapsed, "(now_ - last)", kind="sig:(now_ last : Z) : Z")
+frag("Node_state_charge", "nodes/node.py", node_state_charge, "(old + (now_ - last))", kind="sig:(old now_ last : Z) : Z")
+frag("Sink_cycle_increment", "nodes/sink.py", sink_cycle, "(now_ - created)", kind="sig:(now_ created : Z) : Z")
+for cls_, f_ in (("BufferStore", "base/buffer_store.py"), ("FleetStore", "base/fleet_store.py")):
+    frag("%s_level_increment" % cls_, f_,
+         lambda t, c=cls_: scalar_expr(find(t, c, "_update_time_averaged_level"), "self._weighted_sum", LEVEL_NAMES),
+         "(lastn * (now_ - lastt))", kind="sig:(now_ lastt lastn : Z) : Z")
+    frag("%s_level_count" % cls_, f_,
+         lambda t, c=cls_: Tr().z(assigned_value(find(t, c, "_update_time_averaged_level"), "self._last_num_items")[0]),
+         "(n_items l + n_ready_items l)", kind="Z")
+
+
 def belt_gate(tree):
     return GTr().grants(find(tree, "BeltStore", "_do_reserve_put").body)
 
@@ -430,6 +548,8 @@ def main():
             out.append("Definition %s (edge_idx : Z) : Z := %s." % (fr["name"], text))
         elif fr["kind"] == "const":
             out.append("Definition %s : bool := %s." % (fr["name"], text))
+        elif fr["kind"].startswith("sig:"):
+            out.append("Definition %s %s := %s." % (fr["name"], fr["kind"][4:], text))
         elif fr["kind"] == "pb":
             out.append("Definition %s (p b : Z) : bool := %s." % (fr["name"], text))
         else:
